@@ -702,3 +702,26 @@ package consensus
 //@   callpre votesFor: round == cs.proposalPOLRound && voteType == VoteTypePrevote && cs.proposalPOLRound >= 0
 //@   callpre getOverTwoThirdsPartSetID: vs == ghost(vf_res)
 //@   ensures [needs_polka] r && cs.proposalPOLRound >= 0 ==> ghost(ott_id) != nil && ghost(ott_of) == ghost(vf_res) && ghost(vf_round) == cs.proposalPOLRound && ghost(vf_type) == VoteTypePrevote
+
+// a proposal is adopted only for the node's current height and round and only from the validator
+// whose index is the proposer index of that height and round
+//@ smt all (declare-ghost pi_res Int)
+//@ smt all (declare-ghost pi_h Int)
+//@ smt all (declare-ghost pi_r Int)
+//@ func (cs *consensus) getProposerIndex(height, round) (r)
+//@   trusted
+//@   pure
+//@   opt ghost:pi_res r
+//@   opt ghost:pi_h height
+//@   opt ghost:pi_r round
+//@ func (cs *consensus) ReceiveProposalMessage(msg, unicast) (err)
+//@   arith int
+//@   nosafety
+//@   modifies *
+//@   opt no-callee-pre
+//@   opt inline-none
+//@   inline IsZero
+//@   opt protect cs.height, msg.Height, msg.Round, msg.proposal.BlockPartSetID, msg.proposal.POLRound
+//@   requires cs != nil && msg != nil
+//@   callpre SetByPartSetID: msg.Height == cs.height && msg.Round == cs.round && ghost(pi_h) == cs.height && ghost(pi_r) == cs.round && index == ghost(pi_res) && index >= 0 && psid == msg.proposal.BlockPartSetID && cs.proposalPOLRound == msg.proposal.POLRound
+//@   loop 0: invariant true
